@@ -89,6 +89,19 @@ def check(ctx):
         if any(t.endswith("is NotImplemented") and pol for t, pol in nfacts(cfg, d)):
             ok = True
     ctx.ob("R1", st, "a key that did not exist before (NotImplemented marker) is deleted again on exit", ok, key="swap|no-delete-for-new-key", where=loc(swap))
+    # no step of the restore loop may abort it: user code inside the scope is free to delete a variable the swap
+    # introduced, so removing "a key that did not exist before" must tolerate that the key is gone again
+    di = mod.func("Env._del_item")
+    del_raises = any(isinstance(n_, ast.Raise) and n_.exc is not None and "KeyError" in unparse(n_.exc) for n_ in walk_local(di))
+    for d in {id(x.ast): x for x in dels}.values():
+        protected = False
+        for a_ in ancestors(d.ast):
+            if isinstance(a_, (ast.For, ast.While)):
+                break
+            if isinstance(a_, ast.Try) and any(d.ast is x or lexically_inside(d.ast, x) for x in a_.body) and any(h_.type is None or any(t_ in unparse(h_.type) for t_ in ("KeyError", "LookupError", "Exception", "BaseException")) for h_ in a_.handlers):
+                protected = True
+        guarded = any(pol and isinstance(e, ast.Compare) and isinstance(e.ops[0], ast.In) for e, pol in facts_at(cfg, d) if "NotImplemented" not in unparse(e))
+        ctx.ob("R1", st, f"`{short(d.ast, 60)}` in the restore loop cannot abort it (the key may have been deleted inside the scope: absence is tolerated, so the remaining variables are still restored)", (not del_raises) or protected or guarded, key="swap|restore-step-can-abort", where=loc(d.ast))
     cap = mod.func("Env._capture_for_swap")
     csrc = unparse(cap)
     ok = "NotImplemented" in csrc and "in local" in csrc
